@@ -175,23 +175,24 @@ theorem seqFwd_count_le_init (run : Op α → Dir → List (Coor α) → List (C
 `pipeline::new` instantiates step `i` from `parameters.next(step_i)`: the text of the other
 steps does not enter.  In the model this is the shape of `mapExcept`. -/
 
-theorem mapExcept_get {β γ : Type} (f : β → Except Err γ) (l : List β) (out : List γ)
-    (h : mapExcept f l = .ok out) :
-    out.length = l.length ∧ ∀ (i : Nat) (b : β), l[i]? = some b → ∃ c, out[i]? = some c ∧ f b = .ok c := by
+theorem mapFuel_get {β γ : Type} (f : β → Option (Except Err γ)) (l : List β) (out : List γ)
+    (h : mapFuel f l = some (.ok out)) :
+    out.length = l.length ∧
+      ∀ (i : Nat) (b : β), l[i]? = some b → ∃ c, out[i]? = some c ∧ f b = some (.ok c) := by
   induction l generalizing out with
   | nil =>
-    simp [mapExcept] at h
+    simp [mapFuel] at h
     subst h
     exact ⟨rfl, fun i b hb => by simp at hb⟩
   | cons b bs ih =>
-    simp only [mapExcept] at h
-    cases hb : f b with
-    | error e => simp [hb] at h
-    | ok c =>
-      cases hbs : mapExcept f bs with
-      | error e => simp [hb, hbs] at h
-      | ok cs =>
-        simp [hb, hbs] at h
+    simp only [mapFuel] at h
+    rcases hb : f b with _ | (e | c)
+    · simp [hb] at h
+    · simp [hb] at h
+    · rcases hbs : mapFuel f bs with _ | (e | cs)
+      · simp [hb, hbs] at h
+      · simp [hb, hbs] at h
+      · simp [hb, hbs] at h
         subst h
         obtain ⟨hl, hget⟩ := ih cs hbs
         refine ⟨by simp [hl], ?_⟩
@@ -210,23 +211,23 @@ text of step `i` alone (with the pipeline's globals): no other step's text, and 
 other step's `inv` / `omit_fwd` / `omit_inv`, can influence it. -/
 theorem modifier_scope {R : Type} [Scalar R] (env : Env R) (fuel : Nat) (p : RawParameters) (o : Op R)
     (hpipe : isPipeline p.definition = true) (hdeep : p.nestingTooDeep = false)
-    (h : instantiate env (fuel + 1) p = Except.ok o) :
+    (h : instantiate env (fuel + 1) p = some (Except.ok o)) :
     o.steps.length = (splitIntoSteps p.definition).length ∧
     ∀ (i : Nat) (s : Str), (splitIntoSteps p.definition)[i]? = some s →
-      ∃ o', o.steps[i]? = some o' ∧ instantiate env fuel (p.next s) = Except.ok o' := by
+      ∃ o', o.steps[i]? = some o' ∧ instantiate env fuel (p.next s) = some (Except.ok o') := by
   rw [instantiate_pipeline env fuel p hdeep hpipe] at h
-  unfold pipelineFinish at h
-  cases hm : mapExcept (fun s => instantiate env fuel (p.next s)) (splitIntoSteps p.definition) with
-  | error e => simp [hm] at h
-  | ok steps =>
-    simp only [hm] at h
+  rcases hm : mapFuel (fun s => instantiate env fuel (p.next s)) (splitIntoSteps p.definition) with _ | (e | steps)
+  · simp [hm] at h
+  · simp [hm, pipelineFinish] at h
+  · simp only [hm, Option.map_some, Option.some.injEq] at h
+    unfold pipelineFinish at h
     cases hp : (Parsed.new env.ellpsKnown p pipelineGamut : Except Err (Parsed R)) with
     | error e => simp [hp] at h
     | ok params =>
       simp only [hp] at h
       injection h with h
       subst h
-      exact mapExcept_get _ _ _ hm
+      exact mapFuel_get _ _ _ hm
 
 /-- a pipeline never carries directional modifiers of its own after instantiation: whatever
 trails its last or leads its first step belongs to that step -/
